@@ -210,6 +210,7 @@ func readAll(rep reportFn, stream []byte, crc bool, rs ReadSched, errAt, maxZero
 		}
 		var scratch []byte
 		lastZeroLen := false
+		eofOnEmpty := false
 		for i := 0; ; i++ {
 			size := 4096
 			if positive {
@@ -245,10 +246,15 @@ func readAll(rep reportFn, stream []byte, crc bool, rs ReadSched, errAt, maxZero
 				if err == io.EOF {
 					// tolerated on a zero-length read, but it must be the truth:
 					// the next real read decides
+					eofOnEmpty = true
 				}
 				continue
 			}
 			lastZeroLen = false
+			if eofOnEmpty && n > 0 {
+				rep("read", "eof-on-empty-buffer-before-the-end", "Read with an empty buffer returned io.EOF after %d bytes; the next Read delivered %d more", len(res.out)-n, n)
+				eofOnEmpty = false
+			}
 			res.calls++
 			if err != nil {
 				res.readErr = err
